@@ -12,6 +12,11 @@ COMMON_NOTE = ("Trusted: Coq 8.16.1 kernel (vm_compute used, native_compute not 
                "runtime semantics are modelled as executable Gallina and validated by the correspondence, not verified.")
 
 CLAIMED = {
+    "C12": dict(
+        text="Coq theorems (all lengths, missing patterns, both check types, with/without test_period, all min_obs/min_period, all thresholds): the operational model of attenuated_signal_test equals the decision list FAIL (spread below fail) > SUSPECT (below suspect) > GOOD, UNKNOWN when the window holds too few observations or the spread is undefined, MISSING for a missing point; trailing window (t-P, t]; whole-series mode unconditional (empty series included); std compared through the variance (soundness lemma); unknown check_type rejected. Rolling range with a missing value inside the window is refuted in Coq and reported as known finding F19. Partial: pandas rolling semantics modelled.",
+        design_ref="DESIGN.md §8 C12",
+        technique="Coq proof (refinement with exact rational variance/range, window characterisation) + correspondence",
+    ),
     "C07": dict(
         text="Coq theorems over configuration TREES (nested dict/list/scalars, any depth): Config's dispatch on 'contexts' / 'streams' / dict_depth >= 4 (keys and threshold re-read from the source) followed by ContextConfig parsing yields exactly the intended calls — one per configured (stream, module, test) with its parameters, window and region — for the contexts and streams layouts unconditionally, and for the bare stream / bare module layouts under the depth hypotheses the proofs force (shown to be exact, with Coq refutations = known findings F12a/F12b; bare-geometry regions F12c); unknown modules/tests inserted anywhere are skipped without affecting the rest; per-variable xarray attributes round-trip; carriers agree under the stated oracle hypothesis load(dump d)=d. Tied by running Config on generated configurations through 10 carriers x 4 layouts against the model and the intended calls. Partial: ruamel/json/xarray/importlib/shapely are oracles.",
         design_ref="DESIGN.md §8 C07",
